@@ -1,1 +1,1090 @@
+/-
+Helper lemmas and the representation invariant for the model of /repo/hashmap.c
+(`Model/HashMap.lean`).  Property theorems are in `Props/C17.lean`.
+
+Core Lean only.  The generated constants `INIT_SIZE`, `HIGH_WATERMARK`,
+`LOW_WATERMARK` are used through their definitions (`unfold … ; omega`), so the
+proofs stop checking if the constants in hashmap.c change to values for which the
+argument is no longer valid (e.g. `HIGH_WATERMARK = 100`).
+-/
 import ChibiVerif.Model.HashMap
+
+set_option linter.unusedSectionVars false
+
+namespace ChibiVerif.HashMap
+open ChibiVerif.Gen.HashMap (INIT_SIZE HIGH_WATERMARK LOW_WATERMARK)
+
+variable {α β : Type}
+
+/-! ### Slots -/
+
+/-- the key stored in a slot (`none` for empty slots and tombstones) -/
+def Slot.key : Slot α β → Option α
+  | .full k _ => some k
+  | _ => none
+
+/-- the slot is not `.empty` (it is full or a tombstone): `ent->key != NULL` -/
+def Slot.occ : Slot α β → Bool
+  | .empty => false
+  | _ => true
+
+/-- the slot at probe offset `i` for hash `hk` -/
+def probe (b : List (Slot α β)) (hk i : Nat) : Slot α β :=
+  HM.slotAt b ((hk + i) % b.length)
+
+@[simp] theorem Slot.key_full (k : α) (v : β) : (Slot.full k v).key = some k := rfl
+@[simp] theorem Slot.key_tomb : (Slot.tomb : Slot α β).key = none := rfl
+@[simp] theorem Slot.key_empty : (Slot.empty : Slot α β).key = none := rfl
+@[simp] theorem Slot.occ_full (k : α) (v : β) : (Slot.full k v).occ = true := rfl
+@[simp] theorem Slot.occ_tomb : (Slot.tomb : Slot α β).occ = true := rfl
+@[simp] theorem Slot.occ_empty : (Slot.empty : Slot α β).occ = false := rfl
+
+theorem Slot.key_eq_some {s : Slot α β} {k : α} : s.key = some k ↔ ∃ v, s = .full k v := by
+  cases s <;> simp [Slot.key]
+
+theorem Slot.occ_eq_false {s : Slot α β} : s.occ = false ↔ s = .empty := by
+  cases s <;> simp [Slot.occ]
+
+theorem slotAt_eq_getElem?_getD (b : List (Slot α β)) (i : Nat) :
+    HM.slotAt b i = (b[i]?).getD .empty := by
+  simp [HM.slotAt]
+
+theorem slotAt_of_length_le {b : List (Slot α β)} {i : Nat} (hi : b.length ≤ i) :
+    HM.slotAt b i = .empty := by
+  simp [HM.slotAt, List.getD_eq_getElem?_getD, List.getElem?_eq_none hi]
+
+theorem lt_length_of_occ {b : List (Slot α β)} {i : Nat} (ho : (HM.slotAt b i).occ = true) :
+    i < b.length := by
+  apply Nat.lt_of_not_le
+  intro hle
+  rw [slotAt_of_length_le hle] at ho
+  simp at ho
+
+theorem lt_length_of_key {b : List (Slot α β)} {i : Nat} {k : α}
+    (hk : (HM.slotAt b i).key = some k) : i < b.length := by
+  apply lt_length_of_occ
+  obtain ⟨v, hv⟩ := Slot.key_eq_some.1 hk
+  rw [hv]; rfl
+
+theorem slotAt_eq_getElem {b : List (Slot α β)} {i : Nat} (hi : i < b.length) :
+    HM.slotAt b i = b[i] := by
+  simp [HM.slotAt, List.getD_eq_getElem?_getD, List.getElem?_eq_getElem hi]
+
+theorem slotAt_set {b : List (Slot α β)} {j : Nat} (hj : j < b.length) (s : Slot α β) (x : Nat) :
+    HM.slotAt (b.set j s) x = if x = j then s else HM.slotAt b x := by
+  simp only [HM.slotAt, List.getD_eq_getElem?_getD, List.getElem?_set]
+  by_cases hx : x = j
+  · subst hx; simp [hj]
+  · have : ¬ j = x := fun e => hx e.symm
+    simp [hx, this]
+
+theorem slotAt_replicate_empty (n i : Nat) :
+    HM.slotAt (List.replicate n (Slot.empty : Slot α β)) i = .empty := by
+  simp only [HM.slotAt, List.getD_eq_getElem?_getD, List.getElem?_replicate]
+  split <;> rfl
+
+/-! ### Probe sequence arithmetic -/
+
+theorem probe_inj {c hk i d : Nat} (hid : i ≤ d) (hd : d < c)
+    (he : (hk + i) % c = (hk + d) % c) : i = d := by
+  have h1 := Nat.sub_mod_eq_zero_of_mod_eq he.symm
+  have h2 : hk + d - (hk + i) = d - i := by omega
+  rw [h2, Nat.mod_eq_of_lt (by omega)] at h1
+  omega
+
+theorem probe_inj' {c hk i d : Nat} (hi : i < c) (hd : d < c)
+    (he : (hk + i) % c = (hk + d) % c) : i = d := by
+  rcases Nat.le_total i d with h | h
+  · exact probe_inj h hd he
+  · exact (probe_inj h hi he.symm).symm
+
+theorem probe_surj {c : Nat} (hk : Nat) {e : Nat} (he : e < c) :
+    ∃ i, i < c ∧ (hk + i) % c = e := by
+  have hc : 0 < c := by omega
+  have hr : hk % c < c := Nat.mod_lt _ hc
+  refine ⟨(e + c - hk % c) % c, Nat.mod_lt _ hc, ?_⟩
+  have : hk % c + (e + c - hk % c) = e + c := by omega
+  rw [Nat.add_mod_mod, ← Nat.mod_add_mod, this, Nat.add_mod_right, Nat.mod_eq_of_lt he]
+
+/-! ### The probe loops on an arbitrary bucket list -/
+
+variable [DecidableEq α]
+
+theorem insLoop_succ (b : List (Slot α β)) (hk : Nat) (k : α) (n i : Nat) (t : Option Nat) :
+    HM.insLoop b hk k (n + 1) i t =
+      match HM.slotAt b ((hk + i) % b.length) with
+      | .full k' _ =>
+        if k' = k then .ok (.found ((hk + i) % b.length)) else HM.insLoop b hk k n (i + 1) t
+      | .tomb => HM.insLoop b hk k n (i + 1)
+          (match t with | some j => some j | none => some ((hk + i) % b.length))
+      | .empty => match t with
+        | some j => .ok (.reuse j)
+        | none => .ok (.fresh ((hk + i) % b.length)) := by
+  cases t <;> rfl
+
+theorem getLoop_found (b : List (Slot α β)) (hk : Nat) (k : α) (v : β) (d : Nat) :
+    ∀ n i, i ≤ d → d < i + n → probe b hk d = .full k v →
+      (∀ j, i ≤ j → j < d → (probe b hk j).occ = true ∧ (probe b hk j).key ≠ some k) →
+      HM.getLoop b hk k n i = .ok (some ((hk + d) % b.length)) := by
+  intro n
+  induction n with
+  | zero => intro i h1 h2; omega
+  | succ n ih =>
+    intro i h1 h2 hd hpre
+    rw [HM.getLoop]
+    by_cases hid : i = d
+    · subst hid
+      simp only [probe] at hd
+      simp [hd]
+    · have hlt : i < d := by omega
+      have hp := hpre i (Nat.le_refl _) hlt
+      have hrec := ih (i + 1) (by omega) (by omega) hd
+        (fun j hj1 hj2 => hpre j (by omega) hj2)
+      simp only [probe] at hp
+      revert hp
+      cases hs : HM.slotAt b ((hk + i) % b.length) with
+      | empty => simp
+      | tomb => intro _; simpa using hrec
+      | full k' v' =>
+        intro hp
+        have : k' ≠ k := by simpa using hp.2
+        simp [this, hrec]
+
+theorem getLoop_absent (b : List (Slot α β)) (hk : Nat) (k : α)
+    (habs : ∀ j, (probe b hk j).key ≠ some k) :
+    ∀ n i, (∃ e, i ≤ e ∧ e < i + n ∧ (probe b hk e).occ = false) →
+      HM.getLoop b hk k n i = .ok none := by
+  intro n
+  induction n with
+  | zero => intro i ⟨e, h1, h2, _⟩; omega
+  | succ n ih =>
+    intro i ⟨e, h1, h2, he⟩
+    rw [HM.getLoop]
+    have ha := habs i
+    simp only [probe] at ha
+    revert ha
+    cases hs : HM.slotAt b ((hk + i) % b.length) with
+    | empty => simp
+    | tomb =>
+      intro _
+      have : e ≠ i := by
+        intro hei; subst hei; simp [probe, hs] at he
+      simpa using ih (i + 1) ⟨e, by omega, by omega, he⟩
+    | full k' v' =>
+      intro ha
+      have hne : k' ≠ k := by simpa using ha
+      have : e ≠ i := by
+        intro hei; subst hei; simp [probe, hs] at he
+      simp [hne, ih (i + 1) ⟨e, by omega, by omega, he⟩]
+
+theorem insLoop_found (b : List (Slot α β)) (hk : Nat) (k : α) (v : β) (d : Nat) :
+    ∀ n i t, i ≤ d → d < i + n → probe b hk d = .full k v →
+      (∀ j, i ≤ j → j < d → (probe b hk j).occ = true ∧ (probe b hk j).key ≠ some k) →
+      HM.insLoop b hk k n i t = .ok (.found ((hk + d) % b.length)) := by
+  intro n
+  induction n with
+  | zero => intro i t h1 h2; omega
+  | succ n ih =>
+    intro i t h1 h2 hd hpre
+    rw [insLoop_succ]
+    by_cases hid : i = d
+    · subst hid
+      simp only [probe] at hd
+      simp [hd]
+    · have hlt : i < d := by omega
+      have hp := hpre i (Nat.le_refl _) hlt
+      have hrec := fun t => ih (i + 1) t (by omega) (by omega) hd
+        (fun j hj1 hj2 => hpre j (by omega) hj2)
+      simp only [probe] at hp
+      revert hp
+      cases hs : HM.slotAt b ((hk + i) % b.length) with
+      | empty => simp
+      | tomb => intro _; simpa using hrec _
+      | full k' v' =>
+        intro hp
+        have : k' ≠ k := by simpa using hp.2
+        simp [this, hrec]
+
+theorem insLoop_absent_some (b : List (Slot α β)) (hk : Nat) (k : α)
+    (habs : ∀ j, (probe b hk j).key ≠ some k) (j0 : Nat) :
+    ∀ n i, (∃ e, i ≤ e ∧ e < i + n ∧ (probe b hk e).occ = false) →
+      HM.insLoop b hk k n i (some j0) = .ok (.reuse j0) := by
+  intro n
+  induction n with
+  | zero => intro i ⟨e, h1, h2, _⟩; omega
+  | succ n ih =>
+    intro i ⟨e, h1, h2, he⟩
+    rw [insLoop_succ]
+    have ha := habs i
+    simp only [probe] at ha
+    revert ha
+    cases hs : HM.slotAt b ((hk + i) % b.length) with
+    | empty => simp
+    | tomb =>
+      intro _
+      have : e ≠ i := by
+        intro hei; subst hei; simp [probe, hs] at he
+      simpa using ih (i + 1) ⟨e, by omega, by omega, he⟩
+    | full k' v' =>
+      intro ha
+      have hne : k' ≠ k := by simpa using ha
+      have : e ≠ i := by
+        intro hei; subst hei; simp [probe, hs] at he
+      simp [hne, ih (i + 1) ⟨e, by omega, by omega, he⟩]
+
+/-- Key absent: the loop stops at the first non-full slot `d` on the probe path if that
+    is an empty slot (`fresh`), or remembers it if it is a tombstone (`reuse`). -/
+theorem insLoop_absent_none (b : List (Slot α β)) (hk : Nat) (k : α)
+    (habs : ∀ j, (probe b hk j).key ≠ some k) :
+    ∀ n i, (∃ e, i ≤ e ∧ e < i + n ∧ (probe b hk e).occ = false) →
+      ∃ d, i ≤ d ∧ d < i + n ∧
+        (∀ j, i ≤ j → j < d → (probe b hk j).occ = true) ∧
+        ((probe b hk d = .empty ∧
+            HM.insLoop b hk k n i none = .ok (.fresh ((hk + d) % b.length))) ∨
+         (probe b hk d = .tomb ∧
+            HM.insLoop b hk k n i none = .ok (.reuse ((hk + d) % b.length)))) := by
+  intro n
+  induction n with
+  | zero => intro i ⟨e, h1, h2, _⟩; omega
+  | succ n ih =>
+    intro i ⟨e, h1, h2, he⟩
+    rw [insLoop_succ]
+    have ha := habs i
+    simp only [probe] at ha
+    revert ha
+    cases hs : HM.slotAt b ((hk + i) % b.length) with
+    | empty =>
+      intro _
+      exact ⟨i, Nat.le_refl _, by omega, fun j h1 h2 => by omega, Or.inl ⟨by simp [probe, hs], by simp⟩⟩
+    | tomb =>
+      intro _
+      have hei : e ≠ i := by
+        intro hei; subst hei; simp [probe, hs] at he
+      refine ⟨i, Nat.le_refl _, by omega, fun j h1 h2 => by omega, Or.inr ⟨by simp [probe, hs], ?_⟩⟩
+      simpa using insLoop_absent_some b hk k habs _ n (i + 1) ⟨e, by omega, by omega, he⟩
+    | full k' v' =>
+      intro ha
+      have hne : k' ≠ k := by simpa using ha
+      have hei : e ≠ i := by
+        intro hei; subst hei; simp [probe, hs] at he
+      obtain ⟨d, hd1, hd2, hd3, hd4⟩ := ih (i + 1) ⟨e, by omega, by omega, he⟩
+      refine ⟨d, by omega, by omega, ?_, ?_⟩
+      · intro j hj1 hj2
+        by_cases hji : j = i
+        · subst hji; simp [probe, hs]
+        · exact hd3 j (by omega) hj2
+      · simpa [hne] using hd4
+
+/-! ### The abstract dictionary -/
+
+theorem find?_erase_ne (l : List (α × β)) {k k' : α} (hk : k' ≠ k) :
+    (l.filter (fun kv => !(kv.1 == k))).find? (fun kv => kv.1 == k') =
+      l.find? (fun kv => kv.1 == k') := by
+  rw [List.find?_filter]
+  congr 1
+  funext a
+  by_cases ha' : a.1 = k'
+  · simp [ha', hk]
+  · simp [ha']
+
+theorem AMap.mem_of_get_eq_some {l : List (α × β)} {k : α} {v : β}
+    (hg : AMap.get (α := α) (β := β) l k = some v) : (k, v) ∈ l := by
+  simp only [AMap.get, Option.map_eq_some_iff] at hg
+  obtain ⟨⟨k', v'⟩, hf, hv⟩ := hg
+  have h1 := List.find?_some hf
+  have h2 := List.mem_of_find?_eq_some hf
+  simp at h1 hv
+  subst h1; subst hv
+  exact h2
+
+theorem AMap.get_eq_none_iff {l : List (α × β)} {k : α} :
+    AMap.get (α := α) (β := β) l k = none ↔ ∀ v, (k, v) ∉ l := by
+  simp only [AMap.get, Option.map_eq_none_iff, List.find?_eq_none]
+  constructor
+  · intro hn v hm
+    have := hn (k, v) hm
+    simp at this
+  · intro hn ⟨k', v'⟩ hm hk
+    simp at hk
+    subst hk
+    exact hn v' hm
+
+theorem AMap.get_put (m : AMap α β) (k : α) (v : β) (k' : α) :
+    (m.put k v).get k' = if k' = k then some v else m.get k' := by
+  simp only [AMap.put, AMap.get, AMap.erase]
+  by_cases hk : k' = k
+  · subst hk; simp
+  · have hk' : ¬ k = k' := fun e => hk e.symm
+    rw [List.find?_cons]
+    have : ((k, v).1 == k') = false := by simpa using hk'
+    rw [this]
+    simp only [hk, if_false]
+    exact congrArg _ (find?_erase_ne _ hk)
+
+theorem AMap.get_erase (m : AMap α β) (k : α) (k' : α) :
+    (m.erase k).get k' = if k' = k then none else m.get k' := by
+  simp only [AMap.get, AMap.erase]
+  by_cases hk : k' = k
+  · subst hk
+    simp only [if_true, Option.map_eq_none_iff, List.find?_eq_none]
+    intro x hx
+    simpa using (List.mem_filter.1 hx).2
+  · simp only [hk, if_false]
+    exact congrArg _ (find?_erase_ne _ hk)
+
+theorem AMap.get_empty (k : α) : (AMap.empty : AMap α β).get k = none := rfl
+
+/-! ### Abstraction function and representation invariant -/
+
+/-- the value of a full slot holding key `k` (the first one in bucket order; under the
+    invariant there is at most one) -/
+def absGet (m : HM α β) (k : α) : Option β := AMap.get (HM.liveEntries m.buckets) k
+
+/-- number of slots that are full or tombstones -/
+def occCount (b : List (Slot α β)) : Nat := b.countP Slot.occ
+
+/-- Representation invariant of a table with allocated buckets.
+* capacity is at least `INIT_SIZE`;
+* (I1) no two different slots hold the same key;
+* (I2) every stored key is reachable from its hash by linear probing without passing
+  an empty slot;
+* (I3) `used` counts the non-empty slots and at least one slot is empty. -/
+def WF (h : α → Nat) (m : HM α β) : Prop :=
+  INIT_SIZE ≤ m.buckets.length ∧
+  (∀ i, i < m.buckets.length → ∀ j, j < m.buckets.length → ∀ k,
+      (HM.slotAt m.buckets i).key = some k → (HM.slotAt m.buckets j).key = some k → i = j) ∧
+  (∀ j, j < m.buckets.length → ∀ k, (HM.slotAt m.buckets j).key = some k →
+      ∃ d, d < m.buckets.length ∧ ((h k + d) % m.buckets.length = j ∧
+        ∀ i, i < d → (probe m.buckets (h k) i).occ = true)) ∧
+  m.used = occCount m.buckets ∧
+  m.used < m.buckets.length
+
+/-- Representation invariant: the zero-initialised map (`buckets == NULL`), or a
+    well-formed allocated table. -/
+def Inv (h : α → Nat) (m : HM α β) : Prop :=
+  (m.buckets.length = 0 ∧ m.used = 0) ∨ WF h m
+
+instance (h : α → Nat) (m : HM α β) : Decidable (WF h m) := by
+  unfold WF; infer_instance
+
+instance (h : α → Nat) (m : HM α β) : Decidable (Inv h m) := by
+  unfold Inv; infer_instance
+
+theorem Inv_empty (h : α → Nat) : Inv h (HM.empty : HM α β) := Or.inl ⟨rfl, rfl⟩
+
+namespace WF
+variable {h : α → Nat} {m : HM α β}
+
+theorem cap_ge (w : WF h m) : INIT_SIZE ≤ m.buckets.length := w.1
+
+theorem cap_pos (w : WF h m) : 0 < m.buckets.length := by
+  have := w.1; unfold INIT_SIZE at this; omega
+
+theorem uniq (w : WF h m) {i j : Nat} {k : α} (hi : (HM.slotAt m.buckets i).key = some k)
+    (hj : (HM.slotAt m.buckets j).key = some k) : i = j :=
+  w.2.1 i (lt_length_of_key hi) j (lt_length_of_key hj) k hi hj
+
+theorem path (w : WF h m) {j : Nat} {k : α} (hj : (HM.slotAt m.buckets j).key = some k) :
+    ∃ d, d < m.buckets.length ∧ (h k + d) % m.buckets.length = j ∧
+      ∀ i, i < d → (probe m.buckets (h k) i).occ = true := by
+  obtain ⟨d, h1, h2, h3⟩ := w.2.2.1 j (lt_length_of_key hj) k hj
+  exact ⟨d, h1, h2, h3⟩
+
+theorem used_eq (w : WF h m) : m.used = occCount m.buckets := w.2.2.2.1
+theorem used_lt (w : WF h m) : m.used < m.buckets.length := w.2.2.2.2
+
+end WF
+
+/-! ### `absGet` in terms of slots -/
+
+theorem mem_liveEntries {b : List (Slot α β)} {k : α} {v : β} :
+    (k, v) ∈ HM.liveEntries b ↔ ∃ j, HM.slotAt b j = .full k v := by
+  simp only [HM.liveEntries, List.mem_filterMap]
+  constructor
+  · rintro ⟨s, hs, hf⟩
+    cases s with
+    | empty => simp at hf
+    | tomb => simp at hf
+    | full k' v' =>
+      simp at hf
+      obtain ⟨rfl, rfl⟩ := hf
+      obtain ⟨j, hj⟩ := List.mem_iff_getElem?.1 hs
+      exact ⟨j, by simp [HM.slotAt, List.getD_eq_getElem?_getD, hj]⟩
+  · rintro ⟨j, hj⟩
+    refine ⟨.full k v, ?_, rfl⟩
+    have hlt : j < b.length := lt_length_of_occ (by rw [hj]; rfl)
+    rw [slotAt_eq_getElem hlt] at hj
+    rw [← hj]
+    exact List.getElem_mem hlt
+
+theorem slot_of_absGet_eq_some {m : HM α β} {k : α} {v : β} (hg : absGet m k = some v) :
+    ∃ j, HM.slotAt m.buckets j = .full k v :=
+  mem_liveEntries.1 (AMap.mem_of_get_eq_some hg)
+
+theorem absGet_eq_none_iff {m : HM α β} {k : α} :
+    absGet m k = none ↔ ∀ j, (HM.slotAt m.buckets j).key ≠ some k := by
+  unfold absGet
+  rw [AMap.get_eq_none_iff]
+  constructor
+  · intro hn j hj
+    obtain ⟨v, hv⟩ := Slot.key_eq_some.1 hj
+    exact hn v (mem_liveEntries.2 ⟨j, hv⟩)
+  · intro hn v hm
+    obtain ⟨j, hj⟩ := mem_liveEntries.1 hm
+    exact hn j (by rw [hj]; rfl)
+
+/-- only (I1) is needed: the value of *the* slot holding `k` -/
+theorem absGet_eq_some_of_slot {m : HM α β}
+    (huniq : ∀ i j k, (HM.slotAt m.buckets i).key = some k →
+      (HM.slotAt m.buckets j).key = some k → i = j)
+    {j : Nat} {k : α} {v : β} (hj : HM.slotAt m.buckets j = .full k v) :
+    absGet m k = some v := by
+  cases hg : absGet m k with
+  | none =>
+    exact absurd (by rw [hj]; rfl) (absGet_eq_none_iff.1 hg j)
+  | some v' =>
+    obtain ⟨j', hj'⟩ := slot_of_absGet_eq_some hg
+    have := huniq j j' k (by rw [hj]; rfl) (by rw [hj']; rfl)
+    subst this
+    rw [hj] at hj'
+    injection hj' with _ hv
+    rw [hv]
+
+theorem WF.absGet_of_slot {h : α → Nat} {m : HM α β} (w : WF h m) {j : Nat} {k : α} {v : β}
+    (hj : HM.slotAt m.buckets j = .full k v) : absGet m k = some v :=
+  absGet_eq_some_of_slot (fun _ _ _ hi hj => w.uniq hi hj) hj
+
+theorem absGet_of_length_zero {m : HM α β} (h0 : m.buckets.length = 0) (k : α) :
+    absGet m k = none := by
+  have : m.buckets = [] := List.eq_nil_of_length_eq_zero h0
+  simp [absGet, this, HM.liveEntries, AMap.get]
+
+/-! ### An empty slot exists on every probe path -/
+
+theorem exists_empty_of_occCount_lt {b : List (Slot α β)} (hlt : occCount b < b.length) :
+    ∃ e, e < b.length ∧ (HM.slotAt b e).occ = false := by
+  have hne : ¬ (∀ a, a ∈ b → Slot.occ a = true) := by
+    intro hall
+    have := List.countP_eq_length.2 hall
+    unfold occCount at hlt
+    omega
+  have : ∃ a, a ∈ b ∧ Slot.occ a = false := by
+    apply Classical.byContradiction
+    intro hcon
+    apply hne
+    intro a ha
+    cases hoa : Slot.occ a with
+    | true => rfl
+    | false => exact absurd ⟨a, ha, hoa⟩ hcon
+  obtain ⟨a, ha, hoa⟩ := this
+  obtain ⟨e, he, hea⟩ := List.mem_iff_getElem.1 ha
+  exact ⟨e, he, by rw [slotAt_eq_getElem he, hea]; exact hoa⟩
+
+theorem WF.exists_empty_probe {h : α → Nat} {m : HM α β} (w : WF h m) (hk : Nat) :
+    ∃ e, e < m.buckets.length ∧ (probe m.buckets hk e).occ = false := by
+  have hlt : occCount m.buckets < m.buckets.length := by
+    rw [← w.used_eq]; exact w.used_lt
+  obtain ⟨e, he, hoe⟩ := exists_empty_of_occCount_lt hlt
+  obtain ⟨i, hi, hie⟩ := probe_surj hk he
+  exact ⟨i, hi, by simp only [probe]; rw [hie]; exact hoe⟩
+
+/-- a stored key is found at the end of an all-occupied, non-matching probe prefix -/
+theorem WF.probe_of_slot {h : α → Nat} {m : HM α β} (w : WF h m) {j : Nat} {k : α}
+    (hj : (HM.slotAt m.buckets j).key = some k) :
+    ∃ d, d < m.buckets.length ∧ (h k + d) % m.buckets.length = j ∧
+      ∀ i, i < d → (probe m.buckets (h k) i).occ = true ∧ (probe m.buckets (h k) i).key ≠ some k := by
+  obtain ⟨d, hd, hdj, hpre⟩ := w.path hj
+  refine ⟨d, hd, hdj, fun i hi => ⟨hpre i hi, ?_⟩⟩
+  intro hki
+  have := w.uniq hki hj
+  rw [← hdj] at this
+  have := probe_inj (Nat.le_of_lt hi) hd this
+  omega
+
+/-! ### Lookup -/
+
+theorem WF.getEntry_of_slot {h : α → Nat} {m : HM α β} (w : WF h m) {j : Nat} {k : α}
+    (hj : (HM.slotAt m.buckets j).key = some k) : HM.getEntry h m k = .ok (some j) := by
+  obtain ⟨v, hv⟩ := Slot.key_eq_some.1 hj
+  obtain ⟨d, hd, hdj, hpre⟩ := w.probe_of_slot hj
+  have hne : m.buckets.isEmpty = false := by
+    have := w.cap_pos
+    cases hb : m.buckets with
+    | nil => simp [hb] at this
+    | cons _ _ => rfl
+  unfold HM.getEntry
+  rw [hne]
+  have := getLoop_found m.buckets (h k) k v d m.buckets.length 0 (Nat.zero_le _) (by omega)
+    (by simp only [probe]; rw [hdj]; exact hv) (fun i _ hi => hpre i hi)
+  rw [hdj] at this
+  simpa using this
+
+theorem WF.getEntry_absent {h : α → Nat} {m : HM α β} (w : WF h m) {k : α}
+    (habs : ∀ j, (HM.slotAt m.buckets j).key ≠ some k) : HM.getEntry h m k = .ok none := by
+  have hne : m.buckets.isEmpty = false := by
+    have := w.cap_pos
+    cases hb : m.buckets with
+    | nil => simp [hb] at this
+    | cons _ _ => rfl
+  unfold HM.getEntry
+  rw [hne]
+  obtain ⟨e, he, hoe⟩ := w.exists_empty_probe (h k)
+  have := getLoop_absent m.buckets (h k) k (fun j => habs _) m.buckets.length 0
+    ⟨e, Nat.zero_le _, by omega, hoe⟩
+  simpa using this
+
+/-- `hashmap_get2` on a table satisfying the invariant -/
+theorem Inv.get_eq {h : α → Nat} {m : HM α β} (hinv : Inv h m) (k : α) :
+    HM.get h m k = .ok (absGet m k) := by
+  rcases hinv with ⟨h0, _⟩ | w
+  · have hb : m.buckets = [] := List.eq_nil_of_length_eq_zero h0
+    rw [absGet_of_length_zero h0]
+    simp [HM.get, HM.getEntry, hb, bind, Except.bind, pure, Except.pure]
+  · cases hg : absGet m k with
+    | none =>
+      have := w.getEntry_absent (absGet_eq_none_iff.1 hg)
+      simp [HM.get, this, bind, Except.bind, pure, Except.pure]
+    | some v =>
+      obtain ⟨j, hj⟩ := slot_of_absGet_eq_some hg
+      have := w.getEntry_of_slot (k := k) (j := j) (by rw [hj]; rfl)
+      simp [HM.get, this, hj, bind, Except.bind, pure, Except.pure]
+
+/-! ### Overwriting one slot -/
+
+theorem occCount_set_occ {b : List (Slot α β)} {j : Nat} (hj : j < b.length) {s : Slot α β}
+    (hold : (HM.slotAt b j).occ = true) (hs : s.occ = true) :
+    occCount (b.set j s) = occCount b := by
+  rw [slotAt_eq_getElem hj] at hold
+  have hpos : 0 < occCount b :=
+    List.countP_pos_iff.2 ⟨b[j], List.getElem_mem hj, hold⟩
+  unfold occCount at *
+  rw [List.countP_set hj]
+  simp only [hold, hs, if_true]
+  omega
+
+theorem occCount_set_empty {b : List (Slot α β)} {j : Nat} (hj : j < b.length) {s : Slot α β}
+    (hold : (HM.slotAt b j).occ = false) (hs : s.occ = true) :
+    occCount (b.set j s) = occCount b + 1 := by
+  rw [slotAt_eq_getElem hj] at hold
+  unfold occCount
+  rw [List.countP_set hj]
+  simp [hold, hs]
+
+theorem probe_set_occ {b : List (Slot α β)} {j : Nat} (hj : j < b.length) {s : Slot α β}
+    (hs : s.occ = true) {hk i : Nat} (ho : (probe b hk i).occ = true) :
+    (probe (b.set j s) hk i).occ = true := by
+  simp only [probe, List.length_set] at *
+  rw [slotAt_set hj]
+  split
+  · exact hs
+  · exact ho
+
+/-- Overwriting slot `j` by a non-empty slot `s` keeps the invariant if the key of `s`
+    (if any) is stored nowhere else and is reachable at `j`, and `u` is the new count. -/
+theorem WF.set {h : α → Nat} {m : HM α β} (w : WF h m) {j : Nat} (hj : j < m.buckets.length)
+    {s : Slot α β} {u : Nat} (hs : s.occ = true)
+    (huniq : ∀ k, s.key = some k → ∀ x, x ≠ j → (HM.slotAt m.buckets x).key ≠ some k)
+    (hpath : ∀ k, s.key = some k → ∃ d, d < m.buckets.length ∧
+      (h k + d) % m.buckets.length = j ∧ ∀ i, i < d → (probe m.buckets (h k) i).occ = true)
+    (hu : u = occCount (m.buckets.set j s)) (hult : u < m.buckets.length) :
+    WF h ⟨m.buckets.set j s, u⟩ := by
+  refine ⟨?_, ?_, ?_, hu, ?_⟩
+  · simp only [List.length_set]; exact w.cap_ge
+  · simp only [List.length_set]
+    intro i _ j' _ k hi hj'
+    rw [slotAt_set hj] at hi hj'
+    by_cases hij : i = j <;> by_cases hjj : j' = j
+    · rw [hij, hjj]
+    · simp only [hij, hjj, if_true, if_false] at hi hj'
+      exact absurd hj' (huniq k hi j' hjj)
+    · simp only [hij, hjj, if_true, if_false] at hi hj'
+      exact absurd hi (huniq k hj' i hij)
+    · simp only [hij, hjj, if_false] at hi hj'
+      exact w.uniq hi hj'
+  · simp only [List.length_set]
+    intro x _ k hx
+    rw [slotAt_set hj] at hx
+    by_cases hxj : x = j
+    · simp only [hxj, if_true] at hx
+      obtain ⟨d, hd, hdj, hpre⟩ := hpath k hx
+      exact ⟨d, hd, by rw [hxj]; exact hdj, fun i hi => probe_set_occ hj hs (hpre i hi)⟩
+    · simp only [hxj, if_false] at hx
+      obtain ⟨d, hd, hdj, hpre⟩ := w.path hx
+      exact ⟨d, hd, hdj, fun i hi => probe_set_occ hj hs (hpre i hi)⟩
+  · simp only [List.length_set]; exact hult
+
+/-- keys other than the overwritten/new one keep their value -/
+theorem absGet_set_other {h : α → Nat} {m : HM α β} (w : WF h m) {j : Nat}
+    (hj : j < m.buckets.length) {s : Slot α β} {u : Nat} (w' : WF h ⟨m.buckets.set j s, u⟩)
+    {k' : α} (hs : s.key ≠ some k') (hold : (HM.slotAt m.buckets j).key ≠ some k') :
+    absGet ⟨m.buckets.set j s, u⟩ k' = absGet m k' := by
+  apply Option.ext
+  intro v
+  constructor
+  · intro hg
+    obtain ⟨x, hx⟩ := slot_of_absGet_eq_some hg
+    simp only at hx
+    rw [slotAt_set hj] at hx
+    by_cases hxj : x = j
+    · simp only [hxj, if_true] at hx
+      rw [hx] at hs
+      exact absurd rfl hs
+    · simp only [hxj, if_false] at hx
+      exact w.absGet_of_slot hx
+  · intro hg
+    obtain ⟨x, hx⟩ := slot_of_absGet_eq_some hg
+    have hxj : x ≠ j := by
+      intro e; rw [e] at hx; rw [hx] at hold; exact hold rfl
+    apply w'.absGet_of_slot (j := x)
+    simp only
+    rw [slotAt_set hj]
+    simp only [hxj, if_false]
+    exact hx
+
+/-! ### Insertion (`get_or_insert_entry` after the capacity check, plus the store) -/
+
+/-- no tombstones (the fresh table built by `rehash`) -/
+def NoTomb (m : HM α β) : Prop := ∀ j, HM.slotAt m.buckets j ≠ .tomb
+
+theorem WF.insert_spec {h : α → Nat} {m : HM α β} (w : WF h m) (k : α) (v : β)
+    (hroom : m.used + 1 < m.buckets.length) :
+    ∃ p, HM.insLoop m.buckets (h k) k m.buckets.length 0 none = .ok p ∧
+      WF h (HM.applyIns m k v p) ∧
+      (HM.applyIns m k v p).buckets.length = m.buckets.length ∧
+      (∀ k', absGet (HM.applyIns m k v p) k' = if k' = k then some v else absGet m k') ∧
+      (NoTomb m → NoTomb (HM.applyIns m k v p) ∧
+        (absGet m k = none → (HM.applyIns m k v p).used = m.used + 1)) := by
+  -- common tail: once the chosen position is known to be slot `j`
+  have tail : ∀ (j u : Nat) (hj : j < m.buckets.length),
+      WF h ⟨m.buckets.set j (.full k v), u⟩ →
+      (∀ k', k' ≠ k → (HM.slotAt m.buckets j).key ≠ some k') →
+      ∀ k', absGet ⟨m.buckets.set j (.full k v), u⟩ k' = if k' = k then some v else absGet m k' := by
+    intro j u hj w' hold k'
+    by_cases hk : k' = k
+    · subst hk
+      simp only [if_true]
+      apply w'.absGet_of_slot (j := j)
+      simp only
+      rw [slotAt_set hj]; simp
+    · simp only [hk, if_false]
+      exact absGet_set_other w hj w' (by simpa using fun e => hk e.symm) (hold k' hk)
+  have notomb : ∀ (j u : Nat) (hj : j < m.buckets.length), NoTomb m →
+      NoTomb ⟨m.buckets.set j (.full k v), u⟩ := by
+    intro j u hj hn x
+    simp only
+    rw [slotAt_set hj]
+    split
+    · intro e; cases e
+    · exact hn x
+  by_cases hpres : ∃ j, (HM.slotAt m.buckets j).key = some k
+  · obtain ⟨j, hj⟩ := hpres
+    obtain ⟨v0, hv0⟩ := Slot.key_eq_some.1 hj
+    have hjlt := lt_length_of_key hj
+    obtain ⟨d, hd, hdj, hpre⟩ := w.probe_of_slot hj
+    have hloop := insLoop_found m.buckets (h k) k v0 d m.buckets.length 0 none (Nat.zero_le _)
+      (by omega) (by simp only [probe]; rw [hdj]; exact hv0) (fun i _ hi => hpre i hi)
+    rw [hdj] at hloop
+    have w' : WF h ⟨m.buckets.set j (.full k v), m.used⟩ := by
+      apply w.set hjlt rfl
+      · intro k1 hk1 x hxj hx
+        simp at hk1; subst hk1
+        exact hxj (w.uniq hx hj)
+      · intro k1 hk1
+        simp at hk1; subst hk1
+        exact w.path hj
+      · rw [occCount_set_occ hjlt (by rw [hv0]; rfl) rfl]; exact w.used_eq
+      · exact w.used_lt
+    refine ⟨.found j, hloop, w', by simp [HM.applyIns], ?_, ?_⟩
+    · apply tail j m.used hjlt w'
+      intro k' hk' e
+      rw [hj] at e
+      injection e with e
+      exact hk' e.symm
+    · intro hn
+      refine ⟨notomb j m.used hjlt hn, ?_⟩
+      intro hnone
+      exact absurd hj (absGet_eq_none_iff.1 hnone j)
+  · have habs : ∀ j, (HM.slotAt m.buckets j).key ≠ some k := fun j hj => hpres ⟨j, hj⟩
+    obtain ⟨e, he, hoe⟩ := w.exists_empty_probe (h k)
+    obtain ⟨d, _, hd, hpre, hcase⟩ := insLoop_absent_none m.buckets (h k) k (fun j => habs _)
+      m.buckets.length 0 ⟨e, Nat.zero_le _, by omega, hoe⟩
+    have hjlt : (h k + d) % m.buckets.length < m.buckets.length := Nat.mod_lt _ w.cap_pos
+    have hold : ∀ k', k' ≠ k →
+        (HM.slotAt m.buckets ((h k + d) % m.buckets.length)).key ≠ some k' := by
+      intro k' _
+      rcases hcase with ⟨hs, _⟩ | ⟨hs, _⟩ <;> (simp only [probe] at hs; rw [hs]; simp)
+    have hwf : ∀ u, u = occCount (m.buckets.set ((h k + d) % m.buckets.length) (.full k v)) →
+        u < m.buckets.length →
+        WF h ⟨m.buckets.set ((h k + d) % m.buckets.length) (.full k v), u⟩ := by
+      intro u hu hult
+      apply w.set hjlt rfl
+      · intro k1 hk1 x _
+        simp at hk1; subst hk1
+        exact habs x
+      · intro k1 hk1
+        simp at hk1; subst hk1
+        exact ⟨d, by omega, rfl, fun i hi => hpre i (Nat.zero_le _) hi⟩
+      · exact hu
+      · exact hult
+    rcases hcase with ⟨hs, hloop⟩ | ⟨hs, hloop⟩
+    · have w' := hwf (m.used + 1)
+        (by rw [occCount_set_empty hjlt (by simp only [probe] at hs; rw [hs]; rfl) rfl, w.used_eq])
+        (by omega)
+      refine ⟨_, hloop, w', by simp [HM.applyIns], tail _ _ hjlt w' hold, ?_⟩
+      intro hn
+      exact ⟨notomb _ _ hjlt hn, fun _ => rfl⟩
+    · have w' := hwf m.used
+        (by rw [occCount_set_occ hjlt (by simp only [probe] at hs; rw [hs]; rfl) rfl, w.used_eq])
+        w.used_lt
+      refine ⟨_, hloop, w', by simp [HM.applyIns], tail _ _ hjlt w' hold, ?_⟩
+      intro hn
+      simp only [probe] at hs
+      exact absurd hs (hn _)
+
+/-! ### Deletion -/
+
+theorem isEmpty_eq_false_of_WF {h : α → Nat} {m : HM α β} (w : WF h m) :
+    m.buckets.isEmpty = false := by
+  have := w.cap_pos
+  cases hb : m.buckets with
+  | nil => simp [hb] at this
+  | cons _ _ => rfl
+
+theorem Inv.delete_spec {h : α → Nat} {m : HM α β} (hinv : Inv h m) (k : α) :
+    ∃ m', HM.delete h m k = .ok m' ∧ Inv h m' ∧
+      ∀ k', absGet m' k' = if k' = k then none else absGet m k' := by
+  rcases hinv with ⟨h0, hu⟩ | w
+  · have hb : m.buckets = [] := List.eq_nil_of_length_eq_zero h0
+    refine ⟨m, ?_, Or.inl ⟨h0, hu⟩, ?_⟩
+    · simp [HM.delete, HM.getEntry, hb, bind, Except.bind, pure, Except.pure]
+    · intro k'; rw [absGet_of_length_zero h0]; simp
+  · by_cases hpres : ∃ j, (HM.slotAt m.buckets j).key = some k
+    · obtain ⟨j, hj⟩ := hpres
+      have hjlt := lt_length_of_key hj
+      have hocc : (HM.slotAt m.buckets j).occ = true := by
+        obtain ⟨v0, hv0⟩ := Slot.key_eq_some.1 hj
+        rw [hv0]; rfl
+      have w' : WF h ⟨m.buckets.set j .tomb, m.used⟩ := by
+        apply w.set hjlt rfl
+        · intro k1 hk1; simp at hk1
+        · intro k1 hk1; simp at hk1
+        · rw [occCount_set_occ hjlt hocc rfl]; exact w.used_eq
+        · exact w.used_lt
+      refine ⟨⟨m.buckets.set j .tomb, m.used⟩, ?_, Or.inr w', ?_⟩
+      · simp [HM.delete, w.getEntry_of_slot hj, bind, Except.bind, pure, Except.pure]
+      · intro k'
+        by_cases hk : k' = k
+        · subst hk
+          simp only [if_true]
+          rw [absGet_eq_none_iff]
+          intro x hx
+          simp only at hx
+          rw [slotAt_set hjlt] at hx
+          by_cases hxj : x = j
+          · simp [hxj] at hx
+          · simp only [hxj, if_false] at hx
+            exact hxj (w.uniq hx hj)
+        · simp only [hk, if_false]
+          apply absGet_set_other w hjlt w' (by simp)
+          rw [hj]
+          intro e; injection e with e; exact hk e.symm
+    · have habs : ∀ j, (HM.slotAt m.buckets j).key ≠ some k := fun j hj => hpres ⟨j, hj⟩
+      refine ⟨m, ?_, Or.inr w, ?_⟩
+      · simp [HM.delete, w.getEntry_absent habs, bind, Except.bind, pure, Except.pure]
+      · intro k'
+        by_cases hk : k' = k
+        · subst hk; simp only [if_true]; exact absGet_eq_none_iff.2 habs
+        · simp [hk]
+
+/-! ### `rehash` -/
+
+theorem growCap_spec (nkeys : Nat) : ∀ f cap, 0 < cap →
+    nkeys * 100 < LOW_WATERMARK * cap * 2 ^ f →
+    cap ≤ HM.growCap nkeys f cap ∧ nkeys * 100 / HM.growCap nkeys f cap < LOW_WATERMARK := by
+  intro f
+  induction f with
+  | zero =>
+    intro cap hc hlt
+    simp only [HM.growCap, Nat.pow_zero, Nat.mul_one] at *
+    exact ⟨Nat.le_refl _, (Nat.div_lt_iff_lt_mul hc).2 hlt⟩
+  | succ f ih =>
+    intro cap hc hlt
+    rw [HM.growCap]
+    split
+    · have h2 : nkeys * 100 < LOW_WATERMARK * (cap * 2) * 2 ^ f := by
+        have : LOW_WATERMARK * (cap * 2) * 2 ^ f = LOW_WATERMARK * cap * 2 ^ (f + 1) := by
+          rw [Nat.pow_succ, Nat.mul_comm (2 ^ f) 2, ← Nat.mul_assoc, ← Nat.mul_assoc]
+        rw [this]; exact hlt
+      obtain ⟨h3, h4⟩ := ih (cap * 2) (by omega) h2
+      exact ⟨by omega, h4⟩
+    · exact ⟨Nat.le_refl _, by omega⟩
+
+theorem growCap_top (nkeys cap : Nat) (hc : 0 < cap) :
+    cap ≤ HM.growCap nkeys (nkeys + 2) cap ∧
+      nkeys * 100 / HM.growCap nkeys (nkeys + 2) cap < LOW_WATERMARK := by
+  apply growCap_spec nkeys (nkeys + 2) cap hc
+  have h1 : nkeys < 2 ^ nkeys := Nat.lt_two_pow_self
+  have h2 : 2 ^ (nkeys + 2) = 2 ^ nkeys * 4 := by rw [Nat.pow_add]
+  have h3 : LOW_WATERMARK * 1 * 2 ^ (nkeys + 2) ≤ LOW_WATERMARK * cap * 2 ^ (nkeys + 2) :=
+    Nat.mul_le_mul_right _ (Nat.mul_le_mul_left _ hc)
+  rw [h2] at h3 ⊢
+  unfold LOW_WATERMARK at h3 ⊢
+  omega
+
+theorem WF.live_pairwise {h : α → Nat} {m : HM α β} (w : WF h m) :
+    (HM.liveEntries m.buckets).Pairwise (fun a b => a.1 ≠ b.1) := by
+  have hp : m.buckets.Pairwise (fun s t => ∀ k, s.key = some k → t.key ≠ some k) := by
+    rw [List.pairwise_iff_getElem]
+    intro i j hi hj hij k hik hjk
+    rw [← slotAt_eq_getElem hi] at hik
+    rw [← slotAt_eq_getElem hj] at hjk
+    have := w.uniq hik hjk
+    omega
+  unfold HM.liveEntries
+  refine List.Pairwise.filterMap _ ?_ hp
+  intro a a' hR b hb b' hb'
+  cases a with
+  | empty => simp at hb
+  | tomb => simp at hb
+  | full k v =>
+    cases a' with
+    | empty => simp at hb'
+    | tomb => simp at hb'
+    | full k' v' =>
+      simp at hb hb'
+      subst hb; subst hb'
+      intro e
+      have e' : k = k' := e
+      exact hR k rfl (by rw [e']; rfl)
+
+theorem WF_replicate (h : α → Nat) {cap : Nat} (hc : INIT_SIZE ≤ cap) :
+    WF h (⟨List.replicate cap .empty, 0⟩ : HM α β) := by
+  have hpos : 0 < cap := by unfold INIT_SIZE at hc; omega
+  refine ⟨by simpa using hc, ?_, ?_, ?_, by simpa using hpos⟩
+  · intro i _ j _ k hi
+    simp only [slotAt_replicate_empty] at hi
+    simp at hi
+  · intro j _ k hj
+    simp only [slotAt_replicate_empty] at hj
+    simp at hj
+  · simp [occCount, List.countP_replicate]
+
+theorem rehash_fold {h : α → Nat} (N cap : Nat) (hN : N * 100 / cap < LOW_WATERMARK) :
+    ∀ (l : List (α × β)) (acc : HM α β), WF h acc → NoTomb acc → acc.buckets.length = cap →
+      l.Pairwise (fun a b => a.1 ≠ b.1) → (∀ kv, kv ∈ l → absGet acc kv.1 = none) →
+      acc.used + l.length ≤ N →
+      ∃ r, l.foldlM (fun acc kv => HM.putNoRehash h acc kv.1 kv.2) acc = .ok r ∧
+        WF h r ∧ NoTomb r ∧ r.buckets.length = cap ∧ r.used = acc.used + l.length ∧
+        ∀ k v, absGet r k = some v ↔ ((k, v) ∈ l ∨ absGet acc k = some v) := by
+  intro l
+  induction l with
+  | nil =>
+    intro acc w hn hc _ _ _
+    exact ⟨acc, rfl, w, hn, hc, rfl, by simp⟩
+  | cons kv l ih =>
+    intro acc w hn hc hpw hnone hle
+    obtain ⟨k1, v1⟩ := kv
+    have hcpos : 0 < cap := by rw [← hc]; exact w.cap_pos
+    have hN' : N * 100 < LOW_WATERMARK * cap := (Nat.div_lt_iff_lt_mul hcpos).1 hN
+    simp only [List.length_cons] at hle
+    have hroom : acc.used + 1 < acc.buckets.length := by
+      rw [hc]; unfold LOW_WATERMARK at hN'; omega
+    obtain ⟨p, hloop, w', hlen', habs', hnt'⟩ := w.insert_spec k1 v1 hroom
+    have hk1none : absGet acc k1 = none := hnone (k1, v1) (List.mem_cons_self)
+    obtain ⟨hn', hused'⟩ := hnt' hn
+    have hused' := hused' hk1none
+    have hguard : ¬ (acc.used * 100 / acc.buckets.length ≥ HIGH_WATERMARK) := by
+      have h1 : acc.used * 100 / cap ≤ N * 100 / cap :=
+        Nat.div_le_div_right (Nat.mul_le_mul_right _ (by omega))
+      rw [hc]
+      unfold LOW_WATERMARK at hN
+      unfold HIGH_WATERMARK
+      omega
+    have hstep : HM.putNoRehash h acc k1 v1 = .ok (HM.applyIns acc k1 v1 p) := by
+      simp [HM.putNoRehash, isEmpty_eq_false_of_WF w, hguard, hloop, bind, Except.bind, pure,
+        Except.pure]
+    rw [List.pairwise_cons] at hpw
+    obtain ⟨r, hr, wr, hnr, hcr, hur, har⟩ := ih (HM.applyIns acc k1 v1 p) w' hn'
+      (by rw [hlen', hc]) hpw.2
+      (by
+        intro kv hkv
+        rw [habs']
+        have : kv.1 ≠ k1 := fun e => hpw.1 kv hkv e.symm
+        simp only [this, if_false]
+        exact hnone kv (List.mem_cons_of_mem _ hkv))
+      (by rw [hused']; omega)
+    refine ⟨r, ?_, wr, hnr, hcr, by rw [hur, hused', List.length_cons]; omega, ?_⟩
+    · rw [List.foldlM_cons]
+      simp only [bind, Except.bind, hstep]
+      exact hr
+    · intro k v
+      rw [har, habs', List.mem_cons]
+      by_cases hk : k = k1
+      · subst hk
+        simp only [if_true, hk1none, Prod.mk.injEq, true_and]
+        constructor
+        · rintro (hm | hv)
+          · exact Or.inl (Or.inr hm)
+          · injection hv with hv; exact Or.inl (Or.inl hv.symm)
+        · rintro ((hv | hm) | hf)
+          · exact Or.inr (by rw [hv])
+          · exact Or.inl hm
+          · simp at hf
+      · simp [hk]
+
+theorem WF.rehash_spec {h : α → Nat} {m : HM α β} (w : WF h m) :
+    ∃ m2, HM.rehash h m = .ok m2 ∧ WF h m2 ∧ (∀ k, absGet m2 k = absGet m k) ∧
+      m2.used + 1 < m2.buckets.length := by
+  have hg := growCap_top (HM.liveEntries m.buckets).length m.buckets.length w.cap_pos
+  obtain ⟨hge, hlow⟩ := hg
+  have hcap : INIT_SIZE ≤ HM.growCap (HM.liveEntries m.buckets).length
+      ((HM.liveEntries m.buckets).length + 2) m.buckets.length := Nat.le_trans w.cap_ge hge
+  have w0 := WF_replicate (β := β) h hcap
+  have hnt0 : NoTomb (⟨List.replicate (HM.growCap (HM.liveEntries m.buckets).length
+      ((HM.liveEntries m.buckets).length + 2) m.buckets.length) .empty, 0⟩ : HM α β) := by
+    intro j; simp only [slotAt_replicate_empty]; intro e; cases e
+  have habs0 : ∀ k, absGet (⟨List.replicate (HM.growCap (HM.liveEntries m.buckets).length
+      ((HM.liveEntries m.buckets).length + 2) m.buckets.length) .empty, 0⟩ : HM α β) k = none := by
+    intro k; rw [absGet_eq_none_iff]; intro j; simp only [slotAt_replicate_empty]; simp
+  obtain ⟨r, hr, wr, _, hcr, hur, har⟩ := rehash_fold (h := h) _ _ hlow
+    (HM.liveEntries m.buckets) _ w0 hnt0 (by simp) w.live_pairwise
+    (fun kv _ => habs0 kv.1) (by simp)
+  simp only [Nat.zero_add] at hur
+  have hcpos : 0 < HM.growCap (HM.liveEntries m.buckets).length
+      ((HM.liveEntries m.buckets).length + 2) m.buckets.length := by
+    unfold INIT_SIZE at hcap; omega
+  refine ⟨r, ?_, wr, ?_, ?_⟩
+  · have hc0 : ¬ HM.growCap (HM.liveEntries m.buckets).length
+      ((HM.liveEntries m.buckets).length + 2) m.buckets.length = 0 := by omega
+    simp [HM.rehash, isEmpty_eq_false_of_WF w, hc0, hr, hur, bind, Except.bind, pure,
+      Except.pure]
+  · intro k
+    apply Option.ext
+    intro v
+    rw [har, habs0]
+    constructor
+    · rintro (hm | hf)
+      · obtain ⟨j, hj⟩ := mem_liveEntries.1 hm
+        exact w.absGet_of_slot hj
+      · simp at hf
+    · intro hg
+      exact Or.inl (mem_liveEntries.2 (slot_of_absGet_eq_some hg))
+  · rw [hur, hcr]
+    have := (Nat.div_lt_iff_lt_mul hcpos).1 hlow
+    unfold LOW_WATERMARK at this
+    unfold INIT_SIZE at hcap
+    omega
+
+/-! ### `hashmap_put2` -/
+
+theorem Inv.put_spec {h : α → Nat} {m : HM α β} (hinv : Inv h m) (k : α) (v : β) :
+    ∃ m', HM.put h m k v = .ok m' ∧ WF h m' ∧
+      ∀ k', absGet m' k' = if k' = k then some v else absGet m k' := by
+  rcases hinv with ⟨h0, hu⟩ | w
+  · have hb : m.buckets = [] := List.eq_nil_of_length_eq_zero h0
+    have w0 := WF_replicate (β := β) h (Nat.le_refl INIT_SIZE)
+    have hroom : (⟨List.replicate INIT_SIZE .empty, 0⟩ : HM α β).used + 1 <
+        (⟨List.replicate INIT_SIZE .empty, 0⟩ : HM α β).buckets.length := by
+      simp only [List.length_replicate]; unfold INIT_SIZE; omega
+    obtain ⟨p, hloop, w', _, habs', _⟩ := w0.insert_spec k v hroom
+    refine ⟨_, ?_, w', ?_⟩
+    · simp only [List.length_replicate] at hloop
+      simp [HM.put, hb, hu, hloop, bind, Except.bind, pure, Except.pure]
+    · intro k'
+      rw [habs', absGet_of_length_zero h0]
+      have : absGet (⟨List.replicate INIT_SIZE .empty, 0⟩ : HM α β) k' = none := by
+        rw [absGet_eq_none_iff]; intro j; simp only [slotAt_replicate_empty]; simp
+      rw [this]
+  · by_cases hhigh : m.used * 100 / m.buckets.length ≥ HIGH_WATERMARK
+    · obtain ⟨m2, hm2, w2, habs2, hroom2⟩ := w.rehash_spec
+      obtain ⟨p, hloop, w', _, habs', _⟩ := w2.insert_spec k v hroom2
+      refine ⟨_, ?_, w', ?_⟩
+      · simp [HM.put, isEmpty_eq_false_of_WF w, hhigh, hm2, hloop, bind, Except.bind, pure,
+          Except.pure]
+      · intro k'; rw [habs', habs2]
+    · have hroom : m.used + 1 < m.buckets.length := by
+        have h1 := w.cap_ge
+        have h2 : m.used * 100 / m.buckets.length < HIGH_WATERMARK := by omega
+        have h3 := (Nat.div_lt_iff_lt_mul w.cap_pos).1 h2
+        unfold INIT_SIZE at h1
+        unfold HIGH_WATERMARK at h3
+        omega
+      obtain ⟨p, hloop, w', _, habs', _⟩ := w.insert_spec k v hroom
+      refine ⟨_, ?_, w', habs'⟩
+      simp [HM.put, isEmpty_eq_false_of_WF w, hhigh, hloop, bind, Except.bind, pure,
+        Except.pure]
+
+/-! ### Histories -/
+
+theorem run_refines (h : α → Nat) (ops : List (Op α β)) :
+    ∀ (m : HM α β) (A : AMap α β), Inv h m → (∀ k, absGet m k = A.get k) →
+      ∃ s, run h m ops = .ok (s, (arun A ops).2) ∧ Inv h s ∧
+        ∀ k, absGet s k = (arun A ops).1.get k := by
+  induction ops with
+  | nil =>
+    intro m A hinv habs
+    exact ⟨m, rfl, hinv, habs⟩
+  | cons op ops ih =>
+    intro m A hinv habs
+    cases op with
+    | put k v =>
+      obtain ⟨m', hm', w', habs'⟩ := hinv.put_spec k v
+      obtain ⟨s, hs, hinvs, habss⟩ := ih m' (A.put k v) (Or.inr w')
+        (by intro k'; rw [habs', AMap.get_put, habs])
+      refine ⟨s, ?_, hinvs, habss⟩
+      simp [run, step, hm', hs, arun, bind, Except.bind, pure, Except.pure]
+    | del k =>
+      obtain ⟨m', hm', hinv', habs'⟩ := hinv.delete_spec k
+      obtain ⟨s, hs, hinvs, habss⟩ := ih m' (A.erase k) hinv'
+        (by intro k'; rw [habs', AMap.get_erase, habs])
+      refine ⟨s, ?_, hinvs, habss⟩
+      simp [run, step, hm', hs, arun, bind, Except.bind, pure, Except.pure]
+    | get k =>
+      obtain ⟨s, hs, hinvs, habss⟩ := ih m A hinv habs
+      refine ⟨s, ?_, hinvs, habss⟩
+      simp [run, step, hinv.get_eq k, hs, arun, habs k, bind, Except.bind, pure, Except.pure]
+
+theorem arun_append (ops1 ops2 : List (Op α β)) : ∀ A : AMap α β,
+    arun A (ops1 ++ ops2) =
+      ((arun (arun A ops1).1 ops2).1, (arun A ops1).2 ++ (arun (arun A ops1).1 ops2).2) := by
+  induction ops1 with
+  | nil => intro A; simp [arun]
+  | cons op ops ih =>
+    intro A
+    cases op with
+    | put k v => simp [arun, ih]
+    | del k => simp [arun, ih]
+    | get k => simp [arun, ih]
+
+/-- the abstract dictionary after a history answers `k` with the last write to `k`
+    (the fold is `Props.C17.lastWrite` started from the initial answer) -/
+theorem arun_get_eq_foldl (ops : List (Op α β)) (k : α) : ∀ A : AMap α β,
+    (arun A ops).1.get k =
+      ops.foldl (fun acc op => match op with
+        | .put k' v => if k' = k then some v else acc
+        | .del k' => if k' = k then none else acc
+        | .get _ => acc) (A.get k) := by
+  induction ops with
+  | nil => intro A; rfl
+  | cons op ops ih =>
+    intro A
+    cases op with
+    | put k' v =>
+      simp only [arun, List.foldl_cons]
+      rw [ih, AMap.get_put]
+      by_cases hk : k' = k
+      · subst hk; simp
+      · have : ¬ k = k' := fun e => hk e.symm
+        simp [hk, this]
+    | del k' =>
+      simp only [arun, List.foldl_cons]
+      rw [ih, AMap.get_erase]
+      by_cases hk : k' = k
+      · subst hk; simp
+      · have : ¬ k = k' := fun e => hk e.symm
+        simp [hk, this]
+    | get k' =>
+      simp only [arun, List.foldl_cons]
+      rw [ih]
+
+end ChibiVerif.HashMap
